@@ -1,0 +1,65 @@
+//go:build verif
+
+package discover
+
+import (
+	"crypto/ecdsa"
+	"net"
+)
+
+// Exports for the verification harness (/verif): packet encoder / decoder of the discovery protocol.
+
+const (
+	VerifMacSize  = macSize
+	VerifHeadSize = headSize
+)
+
+var (
+	VerifErrPacketTooSmall = errPacketTooSmall
+	VerifErrBadHash        = errBadHash
+)
+
+// VerifSamplePackets returns one well-formed signed packet of every type.
+func VerifSamplePackets(priv *ecdsa.PrivateKey, expiration uint64, target NodeID, nNodes int) ([][]byte, error) {
+	ep := rpcEndpoint{IP: net.IP{127, 0, 0, 1}, UDP: 30303, TCP: 30303}
+	nodes := make([]rpcNode, nNodes)
+	for i := range nodes {
+		nodes[i] = rpcNode{IP: net.IP{10, 0, 0, byte(i)}, UDP: uint16(30000 + i), TCP: uint16(30000 + i), ID: target}
+	}
+	reqs := []struct {
+		t byte
+		r interface{}
+	}{
+		{pingPacket, ping{Version: Version, From: ep, To: ep, Expiration: expiration}},
+		{pongPacket, pong{To: ep, ReplyTok: target[:32], Expiration: expiration}},
+		{findnodePacket, findnode{Target: target, Expiration: expiration}},
+		{neighborsPacket, neighbors{Nodes: nodes, Expiration: expiration}},
+	}
+	var out [][]byte
+	for _, q := range reqs {
+		b, err := encodePacket(priv, q.t, q.r)
+		if err != nil {
+			return nil, err
+		}
+		out = append(out, append([]byte{}, b...))
+	}
+	return out, nil
+}
+
+// VerifDecodePacket runs decodePacket; kind is 0 when no request was decoded.
+func VerifDecodePacket(buf []byte) (kind int, from NodeID, hash []byte, expiration uint64, err error) {
+	req, from, hash, err := decodePacket(buf)
+	switch r := req.(type) {
+	case *ping:
+		kind, expiration = pingPacket, r.Expiration
+	case *pong:
+		kind, expiration = pongPacket, r.Expiration
+	case *findnode:
+		kind, expiration = findnodePacket, r.Expiration
+	case *neighbors:
+		kind, expiration = neighborsPacket, r.Expiration
+	}
+	return
+}
+
+func VerifExpired(ts uint64) bool { return expired(ts) }
